@@ -22,13 +22,77 @@ func propC19(c *Ctx) {
 	w := c.W
 	res := NewResolver(w)
 	authn := w.Fn("shovel/web", "(*Handler).Authn")
-	if len(authn.AnonFuncs) != 1 {
-		fatalf("anchor: Authn is expected to return one closure, found %d", len(authn.AnonFuncs))
+	// the handler Authn returns: a function literal that captures `next`, or a value of a type with a
+	// ServeHTTP method that keeps `next` (and possibly the session config) in its fields
+	var cl *ssa.Function
+	var nextField *types.Var             // handler object: the field that holds Authn's next
+	sessFields := map[*types.Var]bool{} // handler object: fields that hold &h.sess / h.sess
+	var nextParam *ssa.Parameter
+	for _, p := range authn.Params {
+		if _, isFn := p.Type().Underlying().(*types.Signature); isFn {
+			nextParam = p
+		}
 	}
-	cl := authn.AnonFuncs[0]
+	fSess := w.Field("shovel/web", "Handler", "sess")
+	isSessRef := func(v ssa.Value) bool {
+		v = stripConv(v)
+		if fa, ok := v.(*ssa.FieldAddr); ok { // &h.sess
+			f, _ := fieldOf(fa)
+			return f == fSess
+		}
+		return isLoadOfField(v, fSess) // h.sess (the field is a pointer)
+	}
+	if len(authn.AnonFuncs) == 1 {
+		cl = authn.AnonFuncs[0]
+	} else {
+		for _, r := range returnsOf(authn) {
+			mi, ok := returnValues(r)[0].(*ssa.MakeInterface)
+			if !ok {
+				continue
+			}
+			t := mi.X.Type()
+			if m := w.Prog.MethodSets.MethodSet(t).Lookup(nil, "ServeHTTP"); m != nil {
+				cl = w.Prog.MethodValue(m)
+			}
+			// the composite behind the value: which field received next, which the session config
+			root := stripConv(mi.X)
+			if u, isU := root.(*ssa.UnOp); isU && u.Op == token.MUL {
+				root = u.X
+			}
+			if al, isAl := root.(*ssa.Alloc); isAl {
+				for _, ref := range *al.Referrers() {
+					fa, isFA := ref.(*ssa.FieldAddr)
+					if !isFA {
+						continue
+					}
+					f, _ := fieldOf(fa)
+					for _, r2 := range *fa.Referrers() {
+						st, isSt := r2.(*ssa.Store)
+						if !isSt || st.Addr != ssa.Value(fa) {
+							continue
+						}
+						if stripConv(st.Val) == ssa.Value(nextParam) {
+							nextField = f
+						}
+						if isSessRef(st.Val) {
+							sessFields[f] = true
+						}
+					}
+				}
+			}
+		}
+		if cl != nil && cl.Synthetic != "" {
+			// promoted / pointer-receiver wrapper: the method it wraps
+			for _, tf := range unwrapBound(cl) {
+				cl = tf
+			}
+		}
+		if cl == nil || nextField == nil {
+			fatalf("anchor: Authn is expected to return a function literal or a handler object that keeps next in a field (closures: %d)", len(authn.AnonFuncs))
+		}
+	}
 	fDisable := w.Field("shovel/config", "Dashboard", "DisableAuthn")
 	fLoop := w.Field("shovel/config", "Dashboard", "EnableLoopbackAuthn")
-	fSess := w.Field("shovel/web", "Handler", "sess")
 	isLoopback := w.Fn("shovel/web", "isLoopback")
 
 	c.Rule("R19.1", "every call of the protected handler inside Authn is guarded by disable_authn, by (!enable_loopback_authn && isLoopback), or by a valid session", 3)
@@ -73,10 +137,11 @@ func propC19(c *Ctx) {
 				}
 			}
 		}
-		if fa, ok := cfg.(*ssa.FieldAddr); ok {
-			if f, _ := fieldOf(fa); f == fSess {
-				cfgOK = true
-			}
+		if isSessRef(cfg) {
+			cfgOK = true // &h.sess, or h.sess where the field is a pointer
+		}
+		if lf, _ := loadedField(cfg); lf != nil && sessFields[lf] {
+			cfgOK = true // the handler object's copy of it
 		}
 		_, reqOK := call.Call.Args[0].(*ssa.Parameter)
 		return cfgOK && reqOK
@@ -151,8 +216,8 @@ func propC19(c *Ctx) {
 				if !isR {
 					return false
 				}
-				for _, lf := range phiLeaves(returnValues(r)[0]) {
-					switch v := lf.Val.(type) {
+				for _, lv := range feasibleLeaves(h, returnValues(r)[0], cuts) {
+					switch v := lv.(type) {
 					case *ssa.Const:
 						if v.Value != nil && v.Value.String() == "true" {
 							return true
@@ -169,7 +234,7 @@ func propC19(c *Ctx) {
 						}
 						return true
 					default:
-						if lf2, _ := loadedField(lf.Val); lf2 == fDisable {
+						if lf2, _ := loadedField(lv); lf2 == fDisable {
 							continue
 						}
 						return true
@@ -207,6 +272,9 @@ func propC19(c *Ctx) {
 			if _, ok := v.X.(*ssa.FreeVar); ok {
 				isNext = true
 			}
+		}
+		if lf, _ := loadedField(stripConv(cc.Value)); lf != nil && nextField != nil && lf == nextField {
+			isNext = true // g.page(w, r)
 		}
 		if !isNext {
 			continue
@@ -464,6 +532,15 @@ func propC19(c *Ctx) {
 		f, _ := loadedField(b.X)
 		return ok && s == "POST" && f != nil && f.Name() == "Method"
 	})
+	_, postT2 := cmpEdges(login, func(b *ssa.BinOp) bool { // `if r.Method != "POST" { 405; return }`
+		if b.Op != token.NEQ {
+			return false
+		}
+		s, ok := constString(b.Y)
+		f, _ := loadedField(b.X)
+		return ok && s == "POST" && f != nil && f.Name() == "Method"
+	})
+	postT = append(postT, postT2...)
 	nSet := 0
 	for _, ci := range lreg.Calls() {
 		if calleeName(ci) != "github.com/kr/session.Set" {
@@ -568,7 +645,11 @@ func propC19(c *Ctx) {
 	// ---- R19.5 ----------------------------------------------------------
 	c.Rule("R19.5", "session keys and the password are written only in web.New", 2)
 	fKeys := func() *types.Var {
-		st := fSess.Type().Underlying().(*types.Struct)
+		t := fSess.Type()
+		if p, isP := t.Underlying().(*types.Pointer); isP {
+			t = p.Elem()
+		}
+		st := t.Underlying().(*types.Struct)
 		for i := 0; i < st.NumFields(); i++ {
 			if st.Field(i).Name() == "Keys" {
 				return st.Field(i)
@@ -587,12 +668,7 @@ func propC19(c *Ctx) {
 			allInstrs(fn, func(in ssa.Instruction) {
 				if st, ok := in.(*ssa.Store); ok {
 					if f, base := fieldOf(st.Addr); f == spec.f {
-						if spec.f == fKeys {
-							// only when the config is a Handler's
-							if bf, _ := fieldOf(base); bf != fSess {
-								return
-							}
-						}
+						_ = base // every session.Config the repo builds is a Handler's
 						n++
 						if fnName(fn) != "shovel/web.New" {
 							bad = append(bad, fnName(fn))
@@ -620,4 +696,44 @@ func repoOrHTTPRequest(base ssa.Value) bool {
 		t = p.Elem()
 	}
 	return namedIs(t, "net/http", "Request")
+}
+
+// feasibleLeaves: the values v can be when only the control-flow edges that
+// survive the cuts are taken: a phi input counts only if its edge is not cut
+// and its source block is reachable from the entry under the cuts.
+func feasibleLeaves(fn *ssa.Function, v ssa.Value, cuts *Cuts) []ssa.Value {
+	live := map[*ssa.BasicBlock]bool{}
+	if len(fn.Blocks) > 0 {
+		live[fn.Blocks[0]] = true
+	}
+	reach(entrySite(fn), func(in ssa.Instruction) bool {
+		live[in.Block()] = true
+		return false
+	}, cuts)
+	var out []ssa.Value
+	seen := map[ssa.Value]bool{}
+	var walk func(x ssa.Value, d int)
+	walk = func(x ssa.Value, d int) {
+		if seen[x] || d > 12 {
+			return
+		}
+		seen[x] = true
+		ph, ok := x.(*ssa.Phi)
+		if !ok {
+			out = append(out, x)
+			return
+		}
+		for i, e := range ph.Edges {
+			pred := ph.Block().Preds[i]
+			if !live[pred] {
+				continue
+			}
+			if cuts != nil && cuts.Edges[Edge{pred, ph.Block()}] {
+				continue
+			}
+			walk(e, d+1)
+		}
+	}
+	walk(v, 0)
+	return out
 }
